@@ -2,7 +2,7 @@ _TS = ["upipe_ts_psi_merge.c", "upipe_ts_psi_split.c", "upipe_ts_psi_join.c"]
 TARGET = dict(
     rule=("merge: 1..8 generated sections (section_length biased to 0, 1, 9, multiples of 183/184 +-2, 1021, 4093; syntax bit on/off) packed by an independent ISO 13818-1 packer "
           "into payloads of 1..184 octets (pointer fields, several sections per payload, 0xff stuffing, payload ends biased to 1-2 octets into a header or exactly on a section end, optional lead-in), "
-          "delivered as single blocks / windows / chains of pieces, optionally with flagged discontinuities, dropped payloads, forbidden headers or unflagged corruption; "
+          "delivered as single blocks / windows / chains of pieces, optionally with flagged discontinuities, dropped payloads, forbidden headers or unflagged corruption, optionally preceded by a corrupt unit start whose pointer_field points beyond its payload; "
           "non-trivial = a section crossing >= 2 payloads with the cut inside its 3-octet header, or two sections in one payload. "
           "split: <= 24 operations add output (filter subset of mask, 1..12 octets) / remove output / section (leading octets derived from existing filters, possibly shorter than a filter, possibly segmented; in a quarter of the configurations one allocation inside the pipe is refused while it handles a section: an output then gets the whole section once or nothing); "
           "non-trivial = some output matched and some output did not, over >= 2 sections. "
